@@ -6,6 +6,8 @@
 // waiter subtracts in its own next step or queues again; flavor 1 = the wait times out).
 // case:   E <capacity> <bound> | <script p0> | <script p1> | ... | <e3 schedule (base-36 digits)>
 //         script ops: S send (never times out)  R recv  s try_send  r try_recv  C close
+//                     T<d> send with Timeout(d)  A = one point "tick", then photon::now += 200 (harness-controlled
+//                     clock: photon::now is 0 at the start of every run and only changes through A; finding F40)
 // output: res=<results p0>|<results p1>|.. blocked=<p,..|-> q=<items> closed=<0|1> sw=<n> rw=<n> ssem=<cnt> rsem=<cnt>
 //         results: S/s -> 1|0, R/r -> value|-1, C -> 0 ; a participant that did not finish is listed in blocked
 // The expected line and the schedule are produced by the model (coq/C09/C09_E3.v, ocaml/C09_e3_run.ml).
@@ -67,6 +69,7 @@ static std::vector<std::string> split(const std::string& s, char c) {
 
 static std::string run_once(size_t cap, int bound, const std::vector<std::string>& scripts, const std::string& sched) {
     e3::clear_names();
+    photon::now = 0;                                        // the clock of Timeout::expired(), moved only by op A
     Chan* ch = new Chan(cap);                               // leaked on livelock (parked threads reference it)
     e3::name(&ch->m_closed, "closed");
     e3::name(&ch->m_senders_waiting, "sw");
@@ -82,6 +85,8 @@ static std::string run_once(size_t cap, int bound, const std::vector<std::string
         while (is >> w) {
             switch (w[0]) {
             case 'S': res[p].push_back(ch->send(1000 * p + seq++) ? 1 : 0); break;
+            case 'T': res[p].push_back(ch->send(1000 * p + seq++, photon::Timeout(strtoull(w.c_str() + 1, nullptr, 10))) ? 1 : 0); break;
+            case 'A': e3::point("tick"); photon::now = photon::now + 200; res[p].push_back(0); break;
             case 's': res[p].push_back(ch->try_send(1000 * p + seq++) ? 1 : 0); break;
             case 'R': { int x = -1; bool ok = ch->recv(x); res[p].push_back(ok ? x : -1); break; }
             case 'r': { int x = -1; bool ok = ch->try_recv(x); res[p].push_back(ok ? x : -1); break; }
